@@ -82,6 +82,7 @@ Agree(e) ==
                         /\ \A k \in {"snap1", "snap2"} : k \in DOMAIN e.out => ViewLaws(e.out[k])
     [] e.op = "pairschema" -> /\ "panic" \notin DOMAIN e.out
                               /\ Map(e.out.a, LAMBDA m : SemMsg(m, e.strict)) = Map(e.out.b, LAMBDA m : SemMsg(m, e.strict))
+    [] e.op = "pairgen" -> "panic" \notin DOMAIN e.out     \* building a message through reflection must not panic
     [] e.op = "pair" -> /\ "panic" \notin DOMAIN e.out /\ "panic" \notin DOMAIN e.out.a /\ "panic" \notin DOMAIN e.out.b
                         /\ LET a == e.out.a  b == e.out.b IN
                            IF e.strict THEN a = b /\ e.out.cross
